@@ -41,6 +41,7 @@ func runC04(c *Ctx) {
 	c.c04Allocations("C04.R2", fns, 8)
 	c.c04Loops("C04.R3", fns, 12)
 	c.c04Termination("C04.R4")
+	c.c04Recover("C04.R6")
 	c.c04NoFabricatedData("C04.R5")
 	c.nullSentinels("C04.R5")
 }
@@ -712,4 +713,55 @@ func countDown(v ssa.Value, l *core.Loop) (*ssa.Phi, ssa.Value, bool) {
 		return nil, nil, false
 	}
 	return ph, init, init != nil && step
+}
+
+// c04Recover (R6): bytes sent by the client are decoded by third-party codecs (pgx), some of which panic on truncated
+// binary values, and statement functions are user code. A panic must not take the whole server down: every codec
+// decode call in the library and every invocation of a statement function runs under a deferred recover.
+func (c *Ctx) c04Recover(rule string) {
+	R := c.R
+	hasRecover := func(fn *ssa.Function) bool {
+		for _, ci := range core.Calls(fn) {
+			d, ok := ci.(*ssa.Defer)
+			if !ok {
+				continue
+			}
+			var target *ssa.Function
+			if mc, ok := d.Call.Value.(*ssa.MakeClosure); ok {
+				target, _ = mc.Fn.(*ssa.Function)
+			} else {
+				target = core.StaticCallee(d)
+			}
+			if target == nil {
+				continue
+			}
+			for _, inner := range core.Calls(target) {
+				if core.BuiltinName(inner.Common()) == "recover" {
+					return true
+				}
+			}
+		}
+		return false
+	}
+	n := 0
+	for _, fn := range c.P.ScopeFuncs() {
+		if !c.P.InPkg(fn, "wire") {
+			continue
+		}
+		for _, ci := range core.Calls(fn) {
+			cc := ci.Common()
+			what := ""
+			switch {
+			case cc.IsInvoke() && cc.Method.Name() == "DecodeValue":
+				what = "codec decode of client bytes"
+			case callbackName(ci) == "stmt":
+				what = "statement function"
+			default:
+				continue
+			}
+			n++
+			R.Check(hasRecover(fn), rule, fkey(fn)+":recovers:"+callDescr(ci), c.at(ci), "a panic while decoding client bytes or inside a statement function is contained (reported as an error of that command), it never ends the server process", what+" runs under a deferred recover in "+fkey(fn), what+" in "+fname(fn)+" runs without a deferred recover: a panic (pgx codecs panic on some truncated binary arrays / ranges / records sent by the client) is not recovered on the simple-query path and terminates the whole process")
+		}
+	}
+	R.Floor(rule, "decode / statement call sites", n, 3)
 }
